@@ -101,7 +101,7 @@ Proof. exact mfi_forgets. Qed.
 
 (* ---- binary64, within the property's tolerance (Flocq): the output of SimpleMovingAverage after a full history and the output of
         a fresh instance fed only a suffix containing the last n inputs differ by at most tau(t) * M ---- *)
-From Coq Require Import Reals.
+From Coq Require Import Reals Floats.
 From Flocq Require Import Core.
 From TA Require Import Proofs.Wiring Proofs.FloatErr Proofs.FloatSma.
 Theorem C17_sma_binary64_forgets : forall p s xs1 xs2 M, sma_new FOps p = Ok s -> (p < 9007199254740992)%N ->
